@@ -49,8 +49,8 @@ struct PdoCfgRun : NodeEnv {
         return r;
     }
     // invariant + behaviour of whatever the node has activated
-    void probeActive(const char *when) {
-        if (m != M_OP) return;
+    void probeActive(const char *when, int freshTpdo = -1) {   // freshTpdo: the TPDO activated just now (-1: all of them, on entering OPERATIONAL) - its SYNC count starts at this instant
+        if (m != M_OP) return; int preSyncs = 0;
         for (int n = 0; n < nT && v.ok; n++) {
             if (!pdoValid(true, n)) continue; uint8_t type = (uint8_t)w.raw(0, comIdx(true, n), 2); SM sm = storedMap(true, n);
             if (!sm.ok) { fail("cfg/activated-invalid-tpdo-mapping", "TPDO " + std::to_string(n) + " is valid in OPERATIONAL with " + sm.why + " (" + when + ")"); return; }
@@ -67,23 +67,29 @@ struct PdoCfgRun : NodeEnv {
         for (int n = 0; n < nR && v.ok; n++) {
             if (!pdoValid(false, n)) continue; uint8_t type = (uint8_t)w.raw(0, comIdx(false, n), 2); SM sm = storedMap(false, n);
             if (!sm.ok) { fail("cfg/activated-invalid-rpdo-mapping", "RPDO " + std::to_string(n) + " is valid in OPERATIONAL with " + sm.why + " (" + when + ")"); return; }
-            if (type < 254 || !sm.exact) continue;
+            if ((type > 240 && type < 254) || !sm.exact) continue;   // synchronous RPDOs (0..240) are probed with frame + SYNC
             uint32_t id = w.raw(0, comIdx(false, n), 1) & 0x7FF; bool clash = false; for (int k = 0; k < nR; k++) if (k != n && pdoValid(false, k) && (w.raw(0, comIdx(false, k), 1) & 0x7FF) == id) clash = true; if (clash || id == 0x601 || id == 0x80 || id == 0) continue;
             Frame f(id, 8, {(uint8_t)(0xA0 + opi), 0x5B, 0x6C, 0x7D, 0x8E, 0x9F, 0x10, 0x21}); std::vector<uint8_t> img = w.image(0); std::map<std::pair<uint16_t, uint8_t>, uint32_t> expv; int pos = 0;
             for (auto &pe : sm.ent) { uint32_t val = 0; for (int b = 0; b < pe.second; b++) val |= (uint32_t)f.d[pos + b] << (8 * b); pos += pe.second; if (pe.first) expv[{pe.first->idx, pe.first->sub}] = val; }
-            deliver(f);
+            deliver(f); if (type <= 240) { deliver(Frame(0x80, 0, {})); preSyncs++; cov.hit(type == 240 ? "rpdo-type-240-probed" : "synchronous-rpdo-probed"); }
             for (auto &o : oc) if (o.exists) { auto it = expv.find({o.idx, o.sub}); uint32_t now2 = w.raw(0, o.idx, o.sub); if (it != expv.end()) { if (now2 != it->second) { fail("cfg/rpdo-behaviour", "RPDO " + std::to_string(n) + " after " + when + ": object " + hex(o.idx) + ":" + std::to_string(o.sub) + " holds " + hex(now2) + ", stored mapping gives " + hex(it->second)); return; } } }
             // nothing but mapped objects changed
             std::vector<uint8_t> img2 = w.image(0); size_t off = 0; for (auto &sp : w.s[0].specs) { size_t len = w.bytes(0, sp.idx, sp.sub).size(); bool mapped = expv.count({sp.idx, sp.sub}) > 0; if (!mapped && memcmp(&img[off], &img2[off], len) != 0) { fail("cfg/rpdo-wrote-unmapped-object", "RPDO " + std::to_string(n) + " changed " + hex(sp.idx) + ":" + std::to_string(sp.sub) + " which it does not map"); return; } off += len; }
             cov.hit("rpdo-activation-probed");
         }
-        // one SYNC: exactly the valid TPDOs whose *stored* transmission type is synchronous may answer it (type 1: must; 2..240: may, the count runs from the activation; 254/255: must not)
+        // SYNCs after the activation: exactly the valid TPDOs whose *stored* transmission type is synchronous answer them - a TPDO activated just now (type n) on every n-th SYNC counted from
+        // this instant and on no other (so a type-240 TPDO is probed with 240 SYNCs); one activated earlier (phase not tracked here): at most once per SYNC; types 254/255: never
         if (v.ok) {
-            std::map<uint32_t, std::pair<int, int>> expc; bool any = false;   // id -> (mandatory, optional)
-            for (int n = 0; n < nT; n++) { if (!pdoValid(true, n)) continue; uint8_t type = (uint8_t)w.raw(0, comIdx(true, n), 2); uint32_t id = w.raw(0, comIdx(true, n), 1) & 0x7FF; auto &e = expc[id]; if (type == 1) e.first++; else if (type >= 2 && type <= 240) e.second++; else if (type < 254) e.second += 2; any = true; }
-            if (any) { Fx fx = deliver(Frame(0x80, 0, {})); std::map<uint32_t, int> got; for (auto &t : fx.tx) got[t.id]++;
-                for (auto &e : expc) { int g = got.count(e.first) ? got[e.first] : 0; if (g < e.second.first || g > e.second.first + e.second.second) { fail("cfg/tpdo-sync-behaviour", "after " + std::string(when) + " a SYNC is answered by " + std::to_string(g) + " frame(s) on " + hex(e.first) + ", the stored transmission types give " + std::to_string(e.second.first) + (e.second.second ? ".." + std::to_string(e.second.first + e.second.second) : "")); return; } }
-                cov.hit("sync-probed-after-activation"); }
+            int K = 0; bool any = false; for (int n = 0; n < nT; n++) { if (!pdoValid(true, n)) continue; any = true; uint8_t type = (uint8_t)w.raw(0, comIdx(true, n), 2); bool fresh = freshTpdo < 0 || freshTpdo == n; if (fresh && type >= 1 && type <= 240) K = std::max(K, (int)type); }
+            if (any && K == 0) K = 1;
+            for (int k = preSyncs + 1; k <= preSyncs + K && v.ok; k++) {
+                std::map<uint32_t, std::pair<int, int>> expc;   // id -> (mandatory, optional)
+                for (int n = 0; n < nT; n++) { if (!pdoValid(true, n)) continue; uint8_t type = (uint8_t)w.raw(0, comIdx(true, n), 2); uint32_t id = w.raw(0, comIdx(true, n), 1) & 0x7FF; auto &e = expc[id]; bool fresh = freshTpdo < 0 || freshTpdo == n;
+                    if (type >= 1 && type <= 240) { if (fresh) { if (k % type == 0) e.first++; } else e.second++; } else if (type < 254) e.second += 2; }
+                Fx fx = deliver(Frame(0x80, 0, {})); std::map<uint32_t, int> got; for (auto &t : fx.tx) got[t.id]++;
+                for (auto &e : expc) { int g = got.count(e.first) ? got[e.first] : 0; if (g < e.second.first || g > e.second.first + e.second.second) { fail("cfg/tpdo-sync-behaviour", "after " + std::string(when) + " SYNC number " + std::to_string(k) + " is answered by " + std::to_string(g) + " frame(s) on " + hex(e.first) + ", the stored transmission types give " + std::to_string(e.second.first) + (e.second.second ? ".." + std::to_string(e.second.first + e.second.second) : "")); return; } }
+            }
+            if (any) { cov.hit("sync-probed-after-activation"); if (K >= 240) cov.hit("type-240-tpdo-probed-with-240-syncs"); }
         }
     }
     void op(const Op &o) {
@@ -127,7 +133,7 @@ struct PdoCfgRun : NodeEnv {
             if (val & 0x20000000u) { fail("cfg/extended-id-accepted", ctx); return; } if (tp && !(val & 0x40000000u)) { fail("cfg/rtr-allowed-accepted", ctx); return; }
             if (validBefore && !(val & 0x80000000u) && ((val ^ old) & 0x3FFFFFFFu)) { fail("cfg/cobid-changed-while-valid", ctx); return; }
             cov.hit(validBefore ? ((val & 0x80000000u) ? "invalidate" : "valid-to-valid") : ((val & 0x80000000u) ? "invalid-to-invalid" : "validate"));
-            if (m == M_OP && !validBefore && !(val & 0x80000000u)) { cov.hit("revalidate-in-operational"); probeActive("re-validating in OPERATIONAL"); } }
+            if (m == M_OP && !validBefore && !(val & 0x80000000u)) { cov.hit("revalidate-in-operational"); probeActive("re-validating in OPERATIONAL", tp ? n : 99); } }
         else if (what == 10) { if (validBefore) { fail("cfg/type-changed-while-valid", ctx); return; } cov.hit("type-accepted"); }
         safety();
     }
@@ -144,7 +150,7 @@ struct PdoCfgRun : NodeEnv {
 
 Plan gen_pdocfg(Rng &r, bool thorough) {
     Plan p; if (r.chance(1, 6)) { p.cfg["poolfull"] = 1; p.cfg["tev"] = r.pick<int64_t>({20, 50}); }
-    for (int n = 0; n < 2; n++) { p.cfg["rvalid" + std::to_string(n)] = r.below(2); p.cfg["tvalid" + std::to_string(n)] = r.below(2); p.cfg["rmap" + std::to_string(n)] = r.chance(1, 5) ? r.range(4, 5) : r.below(4); p.cfg["tmap" + std::to_string(n)] = r.below(4); p.cfg["rtype" + std::to_string(n)] = r.pick<int64_t>({254, 255, 1}); p.cfg["ttype" + std::to_string(n)] = r.pick<int64_t>({254, 255, 1}); }
+    for (int n = 0; n < 2; n++) { p.cfg["rvalid" + std::to_string(n)] = r.below(2); p.cfg["tvalid" + std::to_string(n)] = r.below(2); p.cfg["rmap" + std::to_string(n)] = r.chance(1, 5) ? r.range(4, 5) : r.below(4); p.cfg["tmap" + std::to_string(n)] = r.below(4); p.cfg["rtype" + std::to_string(n)] = r.pick<int64_t>({254, 255, 1, 240, 254}); p.cfg["ttype" + std::to_string(n)] = r.pick<int64_t>({254, 255, 1, 254, 255, 1, 240, 3}); }
     auto link = [&]() -> int64_t { static const uint32_t targets[] = {0x210001, 0x210002, 0x210003, 0x210004, 0x210005, 0x210006, 0x210007, 0x210008, 0x210009, 0x210020, 0x2F0001, 0x100000, 0x000500}; static const uint8_t widths[] = {1, 2, 4, 4, 1, 2, 1, 4, 1, 1, 1, 4, 1}; uint32_t i = r.below(13); uint32_t bits = r.chance(3, 4) ? widths[i] * 8u : r.pick<uint32_t>({8, 16, 24, 32, 64, 0, 1, 40}); return (int64_t)(targets[i] << 8 | bits); };
     int n = (int)r.range(4, thorough ? 60 : 30);
     for (int i = 0; i < n; i++) {
